@@ -521,6 +521,16 @@ def c18_streams(seed, tier):
                 lines = [f"umod dlerp {q(speed)}", f"utick {q(d)} 1"]
                 lines += [f"uapply {tgt}"] * 3 + ["uapply 1:0"] * 2
                 scs.append([f"scenario c18u{i}"] + lines + ["endscenario"]); i += 1
+    # radial dead zone: `normalize_or_zero(v) * dead_zone(length(v))` is exact in f32 (and the model's square root is exact) on
+    # axis-aligned vectors whose magnitude is a power of two, on 1-D / Bool values and on zero
+    mags = [Fr(1, 8), Fr(1, 4), Fr(1, 2), Fr(1), Fr(2), Fr(4)]
+    radial_vals = ["b0", "b1", "2:0,0", "3:0,0,0"] + [f"1:{q(s * m)}" for m in mags + [Fr(3, 8), Fr(3, 4)] for s in (1, -1)]
+    for m in mags:
+        for s in (1, -1):
+            radial_vals += [f"2:{q(s * m)},0", f"2:0,{q(s * m)}", f"3:{q(s * m)},0,0", f"3:0,{q(s * m)},0", f"3:0,0,{q(s * m)}"]
+    for lo, hi in gen.DZ:
+        lines = [f"umod dzradial {q(lo)} {q(hi)}", "utick 1/64 1"] + [f"uapply {v}" for v in radial_vals]
+        scs.append([f"scenario c18u{i}"] + lines + ["endscenario"]); i += 1
     # ExponentialCurve with exponents that are not natural numbers (below and above 1): on the fixed points of every positive
     # exponent (components 0, 1, -1) the result is exact in f32 and in the model
     fixed = ["b0", "b1", "1:0", "1:1", "1:-1"] + [f"2:{x},{y}" for x in (0, 1, -1) for y in (0, 1, -1)] + \
